@@ -31,6 +31,8 @@ type VerifEnt struct {
 	Deleted bool                   `json:"deleted,omitempty"`
 	Props   map[string]interface{} `json:"props"`
 	Refs    map[string]interface{} `json:"refs"`
+	// a recorded time supplied by the client (what a hub-to-hub sync sends); the store stamps every version itself
+	Recorded uint64 `json:"recorded,omitempty"`
 }
 
 type VerifSet struct {
@@ -268,6 +270,15 @@ func verifDoOp(h *verifHub, op VerifOp, idx int, times map[int]int64, tokens map
 	case "restart":
 		h.close()
 		h.open()
+	case "recreate":
+		// the dataset is deleted and a new one of the same name created: a new incarnation with a history of its own
+		if err := h.dsm.DeleteDataset(op.Ds); err != nil {
+			oo.Err = err.Error()
+			return
+		}
+		if _, err := h.dsm.CreateDataset(op.Ds, nil); err != nil {
+			oo.Err = err.Error()
+		}
 	case "batch":
 		ds := h.dsm.GetDataset(op.Ds)
 		if ds == nil {
@@ -673,7 +684,19 @@ func verifDoOp(h *verifHub, op VerifOp, idx int, times map[int]int64, tokens map
 				it := txn.NewIterator(opts)
 				keys := []string{}
 				for it.Seek(prefix); it.ValidForPrefix(prefix) && len(keys) < 300; it.Next() {
-					keys = append(keys, hex.EncodeToString(it.Item().KeyCopy(nil)))
+					k := it.Item().KeyCopy(nil)
+					if fam == 1 && len(k) == 24 {
+						// a version and the key it is stored under agree: the recorded time inside the stored JSON is the
+						// time field of its key (readers take either).  A version that disagrees is reported as a key that
+						// no layout decodes, so the raw-key check of the model fails on it.
+						if v, err := it.Item().ValueCopy(nil); err == nil {
+							var e Entity
+							if json.Unmarshal(v, &e) == nil && e.Recorded != binary.BigEndian.Uint64(k[14:22]) {
+								k = []byte{0xff}
+							}
+						}
+					}
+					keys = append(keys, hex.EncodeToString(k))
 				}
 				it.Close()
 				oo.Raw[fmt.Sprint(fam)] = keys
